@@ -167,6 +167,16 @@ func c15Run(s *sim.Sim, p *sim.Params) {
 	threshold := []int{1, 2, 4, 10}[s.Choose(sim.SWork, 4)]
 	window := []time.Duration{0, time.Millisecond, 50 * time.Millisecond, 2 * time.Second}[s.Choose(sim.SWork, 4)]
 	j := NewJITCompilerWithConfig(threshold, window)
+	// tuning knobs are randomised too (in-package access), so that the bounded tables' eviction
+	// paths run: a profile table of 2-3 entries, 2 specialisations per route
+	if s.Choose(sim.SWork, 3) == 0 {
+		j.profiler.maxProfiles = 2 + s.Choose(sim.SWork, 2)
+		s.Probe("small-profile-table")
+	}
+	if s.Choose(sim.SWork, 3) == 0 {
+		j.specializationCache.maxPerRoute = 2
+		s.Probe("small-specialization-table")
+	}
 	defs := &c15defs{routes: map[string]*ast.Route{}, baseline: map[string]string{}}
 	current := map[string]int{}
 	invals := map[string][]*c15inval{}
@@ -296,6 +306,12 @@ func c15Run(s *sim.Sim, p *sim.Params) {
 			case r < 17:
 				o.kind = "getunit"
 			case r < 18:
+				if s.Choose(sim.SWork, 2) == 0 {
+					o.kind = "noise"
+				} else {
+					o.kind = "typeusage"
+				}
+			case r < 0:
 				o.kind = "typeusage"
 			default:
 				o.kind = "sleep"
@@ -391,6 +407,10 @@ func c15Run(s *sim.Sim, p *sim.Params) {
 							s.Fail("oracle", "wrong-route:GetUnit", fmt.Sprintf("GetUnit(%s) returned unit %s", o.name, u.Name))
 						}
 						judge("GetUnit", o.name, pv, call, u.Bytecode, false)
+					}
+				case "noise":
+					for k := 0; k < 4; k++ {
+						j.RecordExecution(fmt.Sprintf("noise-%d", k), time.Microsecond)
 					}
 				case "typeusage":
 					for k := 0; k < 12; k++ {
